@@ -43,11 +43,11 @@ Definition allow_list : list allow := [
   (* sites that clear schemaInit: only executed for a custom schema / an explicit version / by ResetOpenAPI *)
   mkAllow "kyaml/openapi" "SetSchema" "kyaml/openapi.globalSchema.schemaInit" AWrite 0
           (ResetSite "the build installs a custom schema (openapi: path) — outside C16's domain");
-  (* ... or selects a DIFFERENT built-in version than the one in use (since /repo <COMMIT>, N: selecting the version
+  (* ... or selects a DIFFERENT built-in version than the one in use (since /repo 5e76c27: selecting the version
      already in use keeps the parsed schema; with a single compiled-in version this store is dead for valid input) *)
   mkAllow "kyaml/openapi" "SetSchema" "kyaml/openapi.globalSchema.schemaInit" AWrite 1
           (ResetSite "the build selects a built-in version different from the one in use — outside C16's domain (one built-in version)");
-  (* dropParsedSchema (since /repo <COMMIT>, L): the selection moves away from a custom schema or to a different one *)
+  (* dropParsedSchema (since /repo 66a399d): the selection moves away from a custom schema or to a different one *)
   mkAllow "kyaml/openapi" "dropParsedSchema" "kyaml/openapi.globalSchema" AWrite 0
           (ResetSite "a custom schema is dropped or replaced — outside C16's domain");
   mkAllow "kyaml/openapi" "ResetOpenAPI" "kyaml/openapi.globalSchema" AWrite 0
